@@ -702,3 +702,13 @@ PROPS["C19"]["runs"] += [
     _c19_reinit("ecdsa", "crypto/elliptic.P256=verifP256S"),
     _c19_reinit("eddsa", "github.com/bnb-chain/tss-lib/v2/tss.Edwards=verifEdwardsS"),
 ]
+
+# C11: the context ends at an arbitrary moment relative to the message handling (not only when nothing else can run)
+PROPS["C11"]["runs"] += [
+    _bls("verifH_C11_expire_anywhere", ["bls_c11.go.txt"], params={"hCtxEnd": 2}, extra=["-preempt", "1", "-acqonly", "-det=false"], name="TBLS.KeyGen: the context ends at any scheduling point; peers stop after k deliveries",
+         count=["assert:C11-", "panic:", "deadlock:"], covers=["end", "returned-error", "returned-ok"],
+         bounds={"n": 3, "t": 2, "deliveries": "0..6 (shares, commitments, keys of two scripted peers, in order)", "context": "ended by a goroutine that is runnable from the start: before, between, after any deliveries and between KeyGen's waits; by cancellation or deadline", "preemptions": "<= 1 plus all choices at blocking points"}),
+    _ps("verifH_C11_ps_expire_anywhere", ["ps_c11.go.txt"], params={"hCtxEnd": 2}, extra=["-preempt", "1", "-acqonly", "-det=false", "-consthex"], name="TPS.KeyGen: the context ends at any scheduling point; peers stop after k deliveries",
+        count=["assert:C11-", "panic:", "deadlock:"], covers=["end", "returned-error"],
+        bounds={"n": 3, "t": 2, "deliveries": "0..6", "context": "as in the BLS run", "preemptions": "<= 1 plus all choices at blocking points"}),
+]
